@@ -327,6 +327,15 @@ pub fn check_case(c: &Case, rep: &mut Report) {
     };
     let mut viol: Vec<(String, String)> = Vec::new();
     let mut nrects = 0usize;
+    // one case in three: the server sends all its PDUs in one burst before the application reads the first one (what is
+    // queued behind a PDU must not leak into it)
+    let burst = c.path != "global-direct" && c.gen[1] % 3 == 0;
+    if burst {
+        for p in c.pdus.iter() {
+            s.push("fast-path", &pdu_updates(p), Wrap::FastPath { sec: p.sec, long: p.long });
+        }
+        rep.hist("burst-delivery");
+    }
     for (pi, p) in c.pdus.iter().enumerate() {
         let expected: Vec<&Rect> = p.updates.iter().flat_map(|u| match u {
             Upd::Bitmap(r) => r.iter().collect::<Vec<_>>(),
@@ -349,7 +358,9 @@ pub fn check_case(c: &Case, rep: &mut Report) {
                 _ => Err("no plain client".to_string()),
             })
         } else {
-            s.push("fast-path", &ub, Wrap::FastPath { sec: p.sec, long: p.long });
+            if !burst {
+                s.push("fast-path", &ub, Wrap::FastPath { sec: p.sec, long: p.long });
+            }
             mon::guarded(|| {
                 s.client
                     .read(|e| {
